@@ -572,16 +572,81 @@ def run_c1(prog, res):
             loops.append(body)
     dom_sw = _dominators_from(fn, sw.id)
     dom_en = _dominators_from(fn, fn.entry)
+    fpv = [i for i, v in enumerate(fn.vars) if v["n"] == "fp" and v["k"] == "l"]
+    fpv = fpv[0] if fpv else None
+
+    def expand(vs, depth=0):
+        """variables a set of variables is computed from (locals defined once from an expression)"""
+        out = set(vs)
+        if depth > 3:
+            return out
+        for v in vs:
+            if v in fn.params or v in (topv, fpv, stackv):
+                continue
+            ds = [r for (_d, r) in _ld(fn, v) if r is not None]
+            if len(ds) == 1:
+                out |= expand(fn.refs_in(ds[0]) - {v}, depth + 1)
+        return out
+
+    def positive_vars(n, sign=1, depth=0):
+        """locals that enter the expression with a positive sign (top = fp - j + i - 1: a larger j lowers top)"""
+        n = fn.strip(n)
+        nd = fn.nodes[n]
+        if nd["k"] == "ref" and "d" in nd:
+            return {nd["d"]} if sign > 0 else set()
+        if nd["k"] == "bin" and nd["o"] in ("+", "-") and depth < 12:
+            return positive_vars(nd["c"][0], sign, depth + 1) | \
+                positive_vars(nd["c"][1], sign if nd["o"] == "+" else -sign, depth + 1)
+        if fn.const_val(n) is not None:
+            return set()
+        return set(fn.refs_in(n))        # anything else: be conservative
+
+    def count_vars(scc):
+        """integer locals that the position `top` starts the loop at is computed from, other than frame quantities
+        read from the stack itself: the data-dependent part of what the loop is going to write"""
+        need = set()
+        blocks = set(scc)
+        for x in scc:
+            blocks |= {p for p in fn.blocks[x].preds if p not in scc}
+        for x in blocks:
+            for e in fn.blocks[x].elems:
+                nd = fn.nodes[e]
+                if nd["k"] == "bin" and nd["o"] in ("=", "+="):
+                    l = fn.strip(nd["c"][0])
+                    if fn.nodes[l]["k"] == "ref" and fn.nodes[l].get("d") == topv:
+                        for v in positive_vars(nd["c"][1]):
+                            if v in (topv, fpv, stackv) or v in fn.params or (fn.var_type(v) or "") == tables.SEXP_T:
+                                continue
+                            ds = [r for (_d, r) in _ld(fn, v) if r is not None]
+                            if ds and all(stackv in fn.refs_in(r) for r in ds):
+                                continue        # previous fp / previous argument count: read from the frame
+                            need.add(v)
+        return need
     for scc in loops:
         stat.sites += 1
         stat.obligations += 1
         head = min(scc, key=lambda x: -x)
         line = min(fn.blocks[x].line or 10**9 for x in scc)
         if all(x in dom_sw for x in scc):
-            ok = any(all(c in dom_sw[x] for x in scc) for c in caps)
+            good = [c for c in caps if all(c in dom_sw[x] for x in scc)]
         else:
             # before the dispatch loop (argument copy at procedure entry)
-            ok = any(all(c in dom_en.get(x, ()) for x in scc) for c in caps)
+            good = [c for c in caps if all(c in dom_en.get(x, ()) for x in scc)]
+        ok = bool(good)
+        need = count_vars(scc)
+        if ok and need:
+            covered = False
+            for c in good:
+                have = expand(fn.refs_in(fn.blocks[c].cond))
+                if need <= have:
+                    covered = True
+            if not covered:
+                res.add(Finding("C01", "C01.c1.check-ignores-count", "sexp_apply", "loop moving top",
+                                "vm.c:%d" % line, "the capacity check that dominates this VM loop does not mention `%s`, from which the "
+                                "loop's starting position of `top` is computed: the check leaves a fixed slack while the loop "
+                                "writes a data-dependent number of slots, so a long enough argument list runs past the stack"
+                                % ", ".join(sorted(fn.vars[v]["n"] for v in need)), unit="vm.c"))
+                continue
         if ok:
             stat.discharged += 1
             stat.sample({"loop_at": "vm.c:%d" % line, "verdict": "capacity check dominates the loop"})
